@@ -628,6 +628,8 @@ def run_check(pid, tier, seed, replay):
 
 
 def write_evidence(pid, tier, seed, mcs, traces, violations, drift, notes, t0, nvalid, stats=None, tool_error=False, proof=None):
+    if any(t.get("suite") == "replay" for t in traces):
+        return      # a replay of one recorded history is not a coverage run
     stats = stats or dict(events=0, ops={}, split_states=set(), split_events=0, samples=[])
     states = sum(m["distinct"] for m in mcs)
     trans = sum(m["generated"] for m in mcs)
